@@ -8,6 +8,7 @@ package main
 // line:  <mode> P <params> OPS n <op>... OUT res <0/1 string> f22 <A|hex> f3 <A|hex> foff <A|hex>
 // ops:   C | H | F | X | Z | U | S sel | W22 frame ts data | W3 frs frame ts data
 //        | WO nsamp npre frame ts ptm pd resid n coef... | P k (R npre frame timeNs ptm pd resid data n coef...)*k
+//        | M nb  (wc mode: projectors/basis with nb bases set again on the channel through SetProjectorsBasis)
 // `A` = the file does not exist.  Floats travel as IEEE bit patterns, strings and samples as hex.
 
 import (
@@ -305,12 +306,17 @@ type c05Op struct {
 	data               []uint16
 	coefs32            []float32
 	recs               []*c05Rec
+	// M: the channel's model is sent again (SetProjectorsBasis) while writing
+	nb2         int
+	proj2, bas2 []float64
 }
 
 func (o *c05Op) line() string {
 	switch o.kind {
 	case "S":
 		return fmt.Sprintf("S %d", o.sel)
+	case "M":
+		return fmt.Sprintf("M %d", o.nb2)
 	case "W22":
 		return fmt.Sprintf("W22 %d %d %s", o.frame, o.ts, c05DataHex(o.data))
 	case "W3":
@@ -550,12 +556,40 @@ func c05Pub(r *Rng, tier string, idx int, wc bool) (string, func() string) {
 	if r.Chance(20) {
 		ops = append(ops, &c05Op{kind: "P", recs: c05Batch(r, tier, p, sel, r.Range(1, 3))})
 	}
+	// pause (and sometimes unpause) before START: every Set<format> of START clears the flag, also for OFF alone
+	if r.Chance(15) || (sel == 4 && r.Chance(25)) {
+		ops = append(ops, &c05Op{kind: "Z"})
+		if r.Chance(25) {
+			ops = append(ops, &c05Op{kind: "U"})
+		}
+	}
 	ops = append(ops, &c05Op{kind: "S", sel: sel})
+	// the channel's model sent again while writing (ConfigureProjectorsBasis is allowed then): the OFF writer
+	// must keep the matrices it was started with.  Same shape with other contents, or another number of bases.
+	remodel := func() *c05Op {
+		nb2 := p.projR
+		if r.Chance(55) {
+			nb2 = r.Range(1, 8)
+		}
+		return &c05Op{kind: "M", nb2: nb2, proj2: c05Matrix(r, nb2, p.nsamp), bas2: c05Matrix(r, p.nsamp, nb2)}
+	}
+	canRemodel := wc && sel&4 != 0
+	if canRemodel && r.Chance(45) { // before the channel's first record: the file and its header do not exist yet
+		if r.Chance(20) {
+			ops = append(ops, &c05Op{kind: c05PickS(r, "F", "Z")})
+			if ops[len(ops)-1].kind == "Z" {
+				ops = append(ops, &c05Op{kind: "U"})
+			}
+		}
+		ops = append(ops, remodel())
+	}
 	left := nrec
 	pending := 8
 	paused := false
 	for left > 0 || r.Chance(40) {
 		switch c := r.Intn(100); {
+		case c < 6 && canRemodel: // any time later (after the first record it must not matter either)
+			ops = append(ops, remodel())
 		case c < 10:
 			ops = append(ops, &c05Op{kind: "F"})
 			pending = 0
@@ -697,6 +731,10 @@ func c05Pub(r *Rng, tier string, idx int, wc bool) (string, func() string) {
 					}
 				case "P":
 					bit(dastard.VerifPublish(dp, toRecs(o.recs)))
+				case "M":
+					if err := vs.VerifSetProjectors(obs, c05Dense(o.nb2, p.nsamp, o.proj2), c05Dense(p.nsamp, o.nb2, o.bas2), p.desc+" (resent)"); err != nil {
+						return "res E-projectors2 f22 A f3 A foff A"
+					}
 				case "F":
 					dp.Flush()
 				case "Z":
